@@ -12,6 +12,7 @@ C17 for hand-written lattice models, generic part (any `Lattice`):
 * `distance_two` — the reported distance (`distance`, model of `code.d`) of a `k = 2` code.
 -/
 import PanqecVerif.Proofs.OpComm
+import PanqecVerif.Proofs.Lat2DBase
 
 namespace Panqec
 
@@ -162,5 +163,45 @@ theorem Lattice.packing_bound (l : Lattice) (hwf : l.WF) {n k : Nat} (hn : l.qub
 theorem distance_two (x0 x1 z0 z1 : List Nat) :
     distance [x0, x1] [z0, z1] =
       some (min (min (rowWeight x0) (rowWeight x1)) (min (rowWeight z0) (rowWeight z1))) := rfl
+
+end Panqec
+
+namespace Panqec
+
+/-! ### families of single-letter line operators as representatives -/
+
+theorem keysNodup_line {K : List Coord} (P : Pauli) (h : K.Nodup) :
+    KeysNodup (K.map (fun q => (q, P))) := by
+  unfold KeysNodup
+  rw [Lat2D.map_fst_const]
+  exact h
+
+theorem opSupported_line {qs K : List Coord} (P : Pauli) (h : ∀ q ∈ K, q ∈ qs) :
+    opSupported qs (K.map (fun q => (q, P))) = true := by
+  unfold opSupported
+  rw [List.all_eq_true]
+  intro e he
+  obtain ⟨q, hq, rfl⟩ := List.mem_map.mp he
+  rw [List.contains_iff_mem]
+  exact h q hq
+
+/-- `M` lines `K 0, …, K (M-1)` of qubits, pairwise disjoint, all carrying the letter `P`:
+    the side conditions of `Lattice.packing_bound` -/
+theorem lineReps (qs : List Coord) (K : Nat → List Coord) (M : Nat) (P : Pauli)
+    (hnd : ∀ i, (K i).Nodup) (hq : ∀ i, i < M → ∀ q ∈ K i, q ∈ qs)
+    (hdis : ∀ i i', i < i' → ∀ q ∈ K i, q ∉ K i') :
+    ((List.range M).map fun i => (K i).map (fun q => (q, P))).length = M ∧
+    (∀ r ∈ (List.range M).map fun i => (K i).map (fun q => (q, P)),
+      KeysNodup r ∧ opSupported qs r = true) ∧
+    ((List.range M).map fun i => (K i).map (fun q => (q, P))).Pairwise KeysDisjoint := by
+  refine ⟨by simp, ?_, ?_⟩
+  · intro r hr
+    obtain ⟨i, hi, rfl⟩ := List.mem_map.mp hr
+    exact ⟨keysNodup_line P (hnd i), opSupported_line P (hq i (List.mem_range.mp hi))⟩
+  · rw [List.pairwise_map]
+    refine List.Pairwise.imp ?_ List.pairwise_lt_range
+    intro i i' hii q h1 h2
+    rw [Lat2D.map_fst_const] at h1 h2
+    exact hdis i i' hii q h1 h2
 
 end Panqec
